@@ -13,6 +13,18 @@ NA = {
 PENDING = "check not built yet (planned, DESIGN.md section 6)"
 
 CHECKS = {
+    "C11": dict(
+        category="proof",
+        text="Deductive: the enum value loop of ast.EnumNode.__init__ (slice, members as a symbolic list) against the C++ "
+             "rule v(i) = explicit value else v(i-1)+1: every member's Fortran value and every explicit member's C value "
+             "evaluate to v(i), for int and expression modes, all member counts; plus the expression printer "
+             "(todict.PrintNode.visit_BinaryOp / visit_UnaryOp / visit_ParenExpr) against a token-safety oracle (no operand "
+             "starting with a sign directly after an operator). Two genuine defects found and fixed (octal literal, 1--1).",
+        design_ref="6/C11, A.6",
+        note="Relative to the oracles A1/A1o/A2/A3 (decimal vs octal literals, '+k' suffix, identifier renaming) written from "
+             "the standards; compilers' own evaluation, wrapp.wrap_enum and the emission loops are not covered.",
+        technique="contract-based deductive verification (AST-generated VCs, z3+cvc5)",
+    ),
     "C04": dict(
         category="other",
         text="Contracts on constant data, decided exhaustively on every run: for every statement row that carries its own "
